@@ -125,6 +125,33 @@ def resolve_name_in_module(mi: ModuleInfo, name: str) -> str:
     return name  # builtin or unknown
 
 
+def _class_info(mi, node, qualname):
+    bases = []
+    for b in node.bases:
+        bn = b
+        if isinstance(bn, ast.Subscript):  # MutableSet[str]
+            bn = bn.value
+        if isinstance(bn, ast.Name):
+            bases.append(resolve_name_in_module(mi, bn.id))
+        elif isinstance(bn, ast.Attribute):
+            bases.append(ast.unparse(bn))
+    methods: dict = {}
+    attrs: dict = {}
+    nested: dict = {}
+    for item in node.body:
+        if isinstance(item, ast.FunctionDef):
+            methods.setdefault(mangle(node.name, item.name), []).append(item)
+        elif isinstance(item, ast.Assign) and len(item.targets) == 1 and isinstance(item.targets[0], ast.Name):
+            attrs[mangle(node.name, item.targets[0].id)] = item.value
+        elif isinstance(item, ast.AnnAssign) and isinstance(item.target, ast.Name) and item.value is not None:
+            attrs[mangle(node.name, item.target.id)] = item.value
+        elif isinstance(item, ast.ClassDef):
+            nested[item.name] = item
+    ci = ClassInfo(qualname, mi, node, bases, methods, attrs)
+    ci.nested = nested
+    return ci
+
+
 def load_class(qualname: str) -> ClassInfo | None:
     if qualname in _class_cache:
         return _class_cache[qualname]
@@ -133,31 +160,24 @@ def load_class(qualname: str) -> ClassInfo | None:
     if mod is not None and len(rest) == 1:
         mi = load_module(mod)
         if mi is not None and rest[0] in mi.classes:
-            node = mi.classes[rest[0]]
-            bases = []
-            for b in node.bases:
-                bn = b
-                if isinstance(bn, ast.Subscript):  # MutableSet[str]
-                    bn = bn.value
-                if isinstance(bn, ast.Name):
-                    bases.append(resolve_name_in_module(mi, bn.id))
-                elif isinstance(bn, ast.Attribute):
-                    bases.append(ast.unparse(bn))
-            methods: dict = {}
-            attrs: dict = {}
-            for item in node.body:
-                if isinstance(item, ast.FunctionDef):
-                    methods.setdefault(mangle(node.name, item.name), []).append(item)
-                elif isinstance(item, ast.Assign) and len(item.targets) == 1 and isinstance(item.targets[0], ast.Name):
-                    attrs[mangle(node.name, item.targets[0].id)] = item.value
-                elif isinstance(item, ast.AnnAssign) and isinstance(item.target, ast.Name) and item.value is not None:
-                    attrs[mangle(node.name, item.target.id)] = item.value
-            ci = ClassInfo(f"{mod}.{rest[0]}", mi, node, bases, methods, attrs)
+            ci = _class_info(mi, mi.classes[rest[0]], f"{mod}.{rest[0]}")
         elif mi is not None and rest[0] in mi.imports:
             # re-exported
             ci = load_class(mi.imports[rest[0]])
+    elif mod is not None and len(rest) == 2:
+        outer = load_class(f"{mod}.{rest[0]}")
+        if outer is not None and rest[1] in getattr(outer, "nested", {}):
+            ci = _class_info(outer.module, outer.nested[rest[1]], f"{outer.qualname}.{rest[1]}")
     _class_cache[qualname] = ci
     return ci
+
+
+def find_nested_class(cls_qualname: str, name: str):
+    for q in mro(cls_qualname):
+        ci = load_class(q)
+        if ci is not None and name in getattr(ci, "nested", {}):
+            return f"{ci.qualname}.{name}"
+    return None
 
 
 def mro(qualname: str) -> list[str]:
